@@ -47,6 +47,10 @@ def main(tier, which='C07'):
                 # (class name only) a node had run away to coordinates beyond 1e5 when the check failed
                 if m and 'width()-w' in m.group(1) and any(abs(v) > 1e5 for p_ in brief['pos'] for v in p_):
                     key += ':layout-ran-away-beyond-1e5'
+            if isinstance(t, (list, tuple)) and len(t) == 2 and t[0] == 'unreported-constraint-violated' and t[1] in ('separation', 'alignment', 'boundary', 'multi-separation', 'distribution', 'fixed-relative'):
+                # no class of its own: the rare cases of the unchanged tree (F36 in contradictory groups of more than two) are listed by exact input
+                import hashlib
+                key += ':case-' + hashlib.sha1(json.dumps([brief[k] for k in ('n', 'flags', 'size', 'init', 'edges', 'cons', 'groups', 'clusters')], sort_keys=True).encode()).hexdigest()[:10]
             vd.violation(key, '%s %s: %s' % (name, what[:160], json.dumps(brief)[:700]), brief)
     if which == 'C07':
         # design level: the pair-resolution loop of makeFeasible() terminates (liveness under weak fairness); the model of the code before
